@@ -1823,7 +1823,8 @@ fn emit_calls(seed: u64, tier: Tier, unit: u64, sink: &mut dyn FnMut(Plan) -> bo
                         quotes[n - 1].settle = match quotes[n - 1].settle {
                             Some(d) => {
                                 if r.chance(0.5) {
-                                    Some(d + 1)
+                                    // (the neighbouring day, staying inside chrono's range)
+                                    Some(if d > 0 { d - 1 } else { d + 1 })
                                 } else {
                                     None
                                 }
